@@ -178,6 +178,10 @@ func c10EventsSession(args []string, _ []byte) string {
 func init() { workerHandlers["c10events"] = c10EventsSession }
 
 func c10Events(rt *rapid.T) {
+	if !everyNth("c10Events", 1, 3) {
+		return
+	}
+	defer noteFailure()
 	rec := stats.For("C10")
 	spec := c10EventsSpec{Version: int(rapid.SampledFrom(allVersions).Draw(rt, "version")), MaxInFlight: rapid.IntRange(1, 4).Draw(rt, "maxInFlight"), Batch: rapid.Bool().Draw(rt, "batch")}
 	spec.Events = spec.MaxInFlight + rapid.IntRange(0, 5).Draw(rt, "beyondCapacity")
@@ -323,6 +327,10 @@ func c10FatalSession(args []string, _ []byte) string {
 func init() { workerHandlers["c10fatal"] = c10FatalSession }
 
 func c10Fatal(rt *rapid.T) {
+	if !everyNth("c10Fatal", 1, 3) {
+		return
+	}
+	defer noteFailure()
 	rec := stats.For("C10")
 	spec := c10FatalSpec{Version: int(rapid.SampledFrom(allVersions).Draw(rt, "version")), K: rapid.IntRange(1, 4).Draw(rt, "k"),
 		Code: rapid.IntRange(0, 2).Draw(rt, "code"), Batch: rapid.Bool().Draw(rt, "batch")}
